@@ -5,7 +5,8 @@ set -u
 D=/verif/seeded/$1; C=$2; T=${3:-quick}
 cd /verif
 if ! git -C /repo diff --quiet; then echo "/repo has uncommitted changes; refusing"; exit 2; fi
-git -C /repo apply $D/patch.diff 2>/dev/null || git -C /repo apply -3 $D/patch.diff || { echo "patch does not apply (conflict) - port it by hand"; git -C /repo reset -q --hard HEAD; exit 2; }
+P=$D/patch.diff; [ -f $D/patch-ported.diff ] && P=$D/patch-ported.diff
+git -C /repo apply $P 2>/dev/null || git -C /repo apply -3 $P || { echo "patch does not apply (conflict) - port it by hand"; git -C /repo reset -q --hard HEAD; exit 2; }
 OUT=$D/detect-$C.log
 ( ./check $C --tier $T ) > $OUT 2>&1; RC=$?
 echo "exit=$RC" >> $OUT
